@@ -66,23 +66,15 @@ func main() {
 			}
 			files = append(files, f)
 		}
-		needs := false
-		for _, f := range files {
-			if usesConcurrency(f) {
-				needs = true
-			}
-		}
-		if !needs {
-			continue
-		}
 		info := &types.Info{Types: map[ast.Expr]types.TypeAndValue{}, Uses: map[*ast.Ident]types.Object{}, Defs: map[*ast.Ident]types.Object{}}
 		conf := types.Config{Importer: imp, Error: func(err error) {}}
 		conf.Check(dir, fset, files, info) // type errors in unrelated code are tolerated; missing types fail below
+		written := writtenPackageVars(files, info)
 		for i, f := range files {
-			if !usesConcurrency(f) {
+			if !usesConcurrency(f) && !mentions(f, info, written) && !declares(f, info, written) {
 				continue
 			}
-			rw := &rewriter{fset: fset, info: info, file: f, path: pkgs[dir][i]}
+			rw := &rewriter{fset: fset, info: info, file: f, path: pkgs[dir][i], written: written}
 			rw.rewrite()
 			var buf bytes.Buffer
 			if err := format.Node(&buf, fset, f); err != nil {
@@ -119,7 +111,134 @@ func usesConcurrency(f *ast.File) bool {
 	return found
 }
 
+// writtenPackageVars returns the package-level variables that are written at run time (outside
+// init and outside their declaration): assigned, incremented, appended to, index-assigned,
+// sliced (arrays) or address-taken. Functions that touch such a variable share mutable state
+// across calls and get a scheduling point before every statement.
+func writtenPackageVars(files []*ast.File, info *types.Info) map[types.Object]bool {
+	out := map[types.Object]bool{}
+	pkgVar := func(e ast.Expr) types.Object {
+		for {
+			switch x := e.(type) {
+			case *ast.IndexExpr:
+				e = x.X
+				continue
+			case *ast.SelectorExpr:
+				e = x.X
+				continue
+			case *ast.ParenExpr:
+				e = x.X
+				continue
+			case *ast.StarExpr:
+				e = x.X
+				continue
+			case *ast.Ident:
+				if v, ok := info.Uses[x].(*types.Var); ok && v.Parent() != nil && v.Parent() == v.Pkg().Scope() {
+					return v
+				}
+			}
+			return nil
+		}
+	}
+	for _, f := range files {
+		for _, d := range f.Decls {
+			fd, ok := d.(*ast.FuncDecl)
+			if !ok || fd.Body == nil || (fd.Recv == nil && fd.Name.Name == "init") {
+				continue
+			}
+			ast.Inspect(fd.Body, func(n ast.Node) bool {
+				switch x := n.(type) {
+				case *ast.AssignStmt:
+					for _, l := range x.Lhs {
+						if o := pkgVar(l); o != nil {
+							out[o] = true
+						}
+					}
+				case *ast.IncDecStmt:
+					if o := pkgVar(x.X); o != nil {
+						out[o] = true
+					}
+				case *ast.UnaryExpr:
+					if x.Op == token.AND {
+						if o := pkgVar(x.X); o != nil {
+							out[o] = true
+						}
+					}
+				case *ast.SliceExpr:
+					if o := pkgVar(x.X); o != nil {
+						if _, isArr := o.Type().Underlying().(*types.Array); isArr {
+							out[o] = true
+						}
+					}
+				case *ast.RangeStmt:
+					if x.Tok == token.ASSIGN {
+						for _, l := range []ast.Expr{x.Key, x.Value} {
+							if l != nil {
+								if o := pkgVar(l); o != nil {
+									out[o] = true
+								}
+							}
+						}
+					}
+				}
+				return true
+			})
+		}
+	}
+	// package-level variables of synchronisation types are shared mutable state by construction
+	for id, obj := range info.Defs {
+		v, ok := obj.(*types.Var)
+		if !ok || v.Parent() == nil || v.Pkg() == nil || v.Parent() != v.Pkg().Scope() {
+			continue
+		}
+		_ = id
+		if n, ok := v.Type().(*types.Named); ok && n.Obj().Pkg() != nil && n.Obj().Pkg().Path() == "sync" {
+			out[v] = true
+		}
+	}
+	return out
+}
+
+func mentionsNode(n ast.Node, info *types.Info, set map[types.Object]bool) bool {
+	if len(set) == 0 || n == nil {
+		return false
+	}
+	found := false
+	ast.Inspect(n, func(m ast.Node) bool {
+		if id, ok := m.(*ast.Ident); ok && set[info.Uses[id]] {
+			found = true
+		}
+		return !found
+	})
+	return found
+}
+
+func declares(f *ast.File, info *types.Info, set map[types.Object]bool) bool {
+	for _, d := range f.Decls {
+		if gd, ok := d.(*ast.GenDecl); ok && gd.Tok == token.VAR {
+			for _, sp := range gd.Specs {
+				for _, n := range sp.(*ast.ValueSpec).Names {
+					if set[info.Defs[n]] {
+						return true
+					}
+				}
+			}
+		}
+	}
+	return false
+}
+
+func mentions(f *ast.File, info *types.Info, set map[types.Object]bool) bool {
+	for _, d := range f.Decls {
+		if fd, ok := d.(*ast.FuncDecl); ok && fd.Body != nil && mentionsNode(fd.Body, info, set) {
+			return true
+		}
+	}
+	return false
+}
+
 type rewriter struct {
+	written   map[types.Object]bool
 	fset      *token.FileSet
 	info      *types.Info
 	file      *ast.File
@@ -168,7 +287,7 @@ func (r *rewriter) rewrite() {
 		if sel, ok := n.(*ast.SelectorExpr); ok {
 			if id, ok := sel.X.(*ast.Ident); ok && id.Name == "sync" && r.stepAll {
 				switch sel.Sel.Name {
-				case "Mutex", "RWMutex", "WaitGroup", "Once", "Locker":
+				case "Mutex", "RWMutex", "WaitGroup", "Once", "Locker", "Pool", "Map":
 				default:
 					fatal("%s: sync.%s is not modelled by engine S", r.pos(n), sel.Sel.Name)
 				}
@@ -176,9 +295,13 @@ func (r *rewriter) rewrite() {
 		}
 		return true
 	})
+	fileStepAll := r.stepAll
 	for _, d := range f.Decls {
 		if fd, ok := d.(*ast.FuncDecl); ok && fd.Body != nil {
+			// a function that touches run-time-written package state is preemptible at every statement
+			r.stepAll = fileStepAll || (mentionsNode(fd.Body, r.info, r.written) && !(fd.Recv == nil && fd.Name.Name == "init"))
 			r.block(fd.Body)
+			r.stepAll = fileStepAll
 		}
 		// function literals in package-level var initialisers
 		if gd, ok := d.(*ast.GenDecl); ok {
@@ -190,6 +313,39 @@ func (r *rewriter) rewrite() {
 				return true
 			})
 		}
+	}
+	// package-level variables written at run time are put back to their initial value before
+	// every execution (every schedule starts like a fresh process)
+	var resets []ast.Stmt
+	for _, d := range f.Decls {
+		gd, ok := d.(*ast.GenDecl)
+		if !ok || gd.Tok != token.VAR {
+			continue
+		}
+		for _, sp := range gd.Specs {
+			vs := sp.(*ast.ValueSpec)
+			for i, name := range vs.Names {
+				if !r.written[r.info.Defs[name]] || name.Name == "_" {
+					continue
+				}
+				switch {
+				case len(vs.Values) == len(vs.Names):
+					resets = append(resets, &ast.AssignStmt{Lhs: []ast.Expr{ast.NewIdent(name.Name)}, Tok: token.ASSIGN, Rhs: []ast.Expr{vs.Values[i]}})
+				case len(vs.Values) == 0 && vs.Type != nil:
+					zero := ast.NewIdent("vschedZero" + name.Name)
+					resets = append(resets,
+						&ast.DeclStmt{Decl: &ast.GenDecl{Tok: token.VAR, Specs: []ast.Spec{&ast.ValueSpec{Names: []*ast.Ident{zero}, Type: vs.Type}}}},
+						&ast.AssignStmt{Lhs: []ast.Expr{ast.NewIdent(name.Name)}, Tok: token.ASSIGN, Rhs: []ast.Expr{ast.NewIdent(zero.Name)}})
+				default:
+					fatal("%s: cannot generate a reset for package-level variable %s (multi-value initialiser)", r.path, name.Name)
+				}
+			}
+		}
+	}
+	if len(resets) > 0 {
+		r.usedSched = true
+		reg := &ast.ExprStmt{X: schedCall("RegisterReset", &ast.FuncLit{Type: &ast.FuncType{Params: &ast.FieldList{}}, Body: &ast.BlockStmt{List: resets}})}
+		f.Decls = append(f.Decls, &ast.FuncDecl{Name: ast.NewIdent("init"), Type: &ast.FuncType{Params: &ast.FieldList{}}, Body: &ast.BlockStmt{List: []ast.Stmt{reg}}})
 	}
 	if r.usedSched {
 		// add the import
@@ -230,7 +386,27 @@ func (r *rewriter) stmt(s ast.Stmt) ast.Stmt {
 		} else if len(x.Call.Args) == 0 {
 			fn = r.expr(x.Call.Fun)
 		} else {
-			fatal("%s: go statement with arguments is not supported by the instrumenter", r.pos(s))
+			// go f(a, b): the arguments are evaluated now, the call happens in the new thread:
+			//   { vschedA0, vschedA1 := a, b; vsched.Go(func() { f(vschedA0, vschedA1) }) }
+			if fl, ok := x.Call.Fun.(*ast.FuncLit); ok {
+				r.block(fl.Body)
+			} else {
+				x.Call.Fun = r.expr(x.Call.Fun)
+			}
+			var lhs, rhs, args []ast.Expr
+			for i, a := range x.Call.Args {
+				id := ast.NewIdent(fmt.Sprintf("vschedA%d", i))
+				lhs = append(lhs, id)
+				rhs = append(rhs, r.expr(a))
+				args = append(args, ast.NewIdent(id.Name))
+			}
+			call := &ast.CallExpr{Fun: x.Call.Fun, Args: args, Ellipsis: x.Call.Ellipsis}
+			body := &ast.BlockStmt{List: []ast.Stmt{&ast.ExprStmt{X: call}}}
+			lit := &ast.FuncLit{Type: &ast.FuncType{Params: &ast.FieldList{}}, Body: body}
+			return &ast.BlockStmt{List: []ast.Stmt{
+				&ast.AssignStmt{Lhs: lhs, Tok: token.DEFINE, Rhs: rhs},
+				&ast.ExprStmt{X: schedCall("Go", lit)},
+			}}
 		}
 		return &ast.ExprStmt{X: schedCall("Go", fn)}
 	case *ast.SendStmt:
